@@ -856,7 +856,11 @@ class C01(core.Check):
                   "(fixed_fragment), with the exact exclusion of the known finding 'fixed Padding: pack(()) != render(())' (a "
                   "min_width above the width, a relative width) and of relative Overlay widths above 100 percent; "
                   "render_contract_partial_ext: the box/flow contract also for Padding(width='clip') and Overlay(width='pack') "
-                  "whose fixed child lies in those fragments.  The only "
+                  "whose fixed child lies in those fragments, and for widgets WITHOUT rows - the empty Pile and AttrMap / Padding / "
+                  "Filler / Pile around it (the contract is proved with the row count min_rows w, 0 or 1, in place of 1: "
+                  "rows_and_pack_partial_ext); a flow Columns of such widgets has exactly one row (ba7db6e: rows() = max(1, heights), "
+                  "canvas padded to one row), so they may stand in any column, as a LineBox body, in a Frame or below an Overlay; "
+                  "the top widget of an Overlay must have a row (a 0-row top widget with height='pack' raises: known finding).  The only "
                   "alternative outcome is the model's explicit marker 'a widget was handed a size with a component <= 0' (no room; "
                   "such probes are not judged).  The Columns width arithmetic is C19's theorem column_widths_total_shape, "
                   "transferred to this model by a proved equation (column_widths_eq).  PARTIAL: Columns with a 'pack' column holding a "
@@ -868,7 +872,7 @@ class C01(core.Check):
                   "GridFlow, Scrollable/ScrollBar).  Everything - all nine constructors, the three sizing modes, sizing() flags, "
                   "rows(), pack(), render() sizes and cursors, which error is raised - is tied to the code by an exact extracted-model "
                   "correspondence on ~1.5k well-formed trees x ~8 probes per quick run (random trees plus exhaustive small scopes "
-                  "for weighted Columns / Piles / Filler scrolling), and the property itself is judged on the real canvases "
+                  "for weighted Columns / Piles / Filler scrolling / widgets without rows in every container), and the property itself is judged on the real canvases "
                   "(cols/rows vs request/rows()/pack(), calc_width of every content row, row count, cursor) including the leaves "
                   "the model only assumes.")
     level_note = ("Trusted: Coq kernel; ExtrOcamlBasic extraction + OCaml driver; the hand-written model Model/WidgetDims.v (validated "
@@ -878,7 +882,7 @@ class C01(core.Check):
                   "widget is handed a size with a component <= 0 are compared with the model (which predicts them) but not judged "
                   "by the oracle.")
     rule = ("one case = one random WellFormed widget tree (depth <= 5; Pile/Columns items given/pack/weight, box_columns, "
-            "dividechars, min_width, focus positions; Padding/Filler/Overlay align, valign, given/pack/relative/clip sizes, min "
+            "dividechars, min_width, focus positions; now and then the empty Pile in place of a leaf; Padding/Filler/Overlay align, valign, given/pack/relative/clip sizes, min "
             "sizes, margins; Frame parts and focus part; LineBox titles; 17 leaf kinds) x one of utf-8/ascii/euc-jp x 1-3 random "
             "sizes in 1..12 for every sizing mode the tree reports x both focus values; non-trivial = more than one widget or at "
             "least one successful render; distinct by hash of (case, outcome)")
